@@ -134,7 +134,7 @@ def tasks(tier, seed):
     out.append({'kind': 'codes'})
     for pfx in PFX:
         out.append({'kind': 'rgb', 'pfx': pfx})
-    for i in range(12):
+    for i in range(len(base_forms())):
         out.append({'kind': 'mix', 'first': i})
     out.append({'kind': 'reject'})
     return out
@@ -147,6 +147,8 @@ def base_forms():
         (['1'], AnsiFormat.BOLD, 'M'), (['1'], 'Bold', 'S'), (['1'], 1, 'I'), (['1'], '[1', 'V'),
         (['38;5;214'], X, 'M'), (['38;5;214'], 'color256(214)', 'S'), (['38;5;214'], ('INTS', 38, 5, 214), 'I'),
         (['38;5;214'], '[38;5;214', 'V'),
+        # one extended-colour group spelled as an int followed by a numeric string, and as three numeric strings
+        (['38;5;214'], ('INTS', 38, '5;214'), 'I'), (['38;5;214'], ('INTS', '38', '5', '214'), 'I'),
     ]
 
 
@@ -386,10 +388,11 @@ def run_task(task, acc):
             cases.append({'kind': 'helper', 'pfx': pfx, 'r': r, 'g': g, 'b': b})
     elif k == 'mix':
         first = task['first']
-        for j in range(12):
+        nb = len(base_forms())
+        for j in range(nb):
             cases.append({'kind': 'mix', 'idx': [first, j]})
-        rng = range(12) if tier != 'quick' else (0, 2, 6, 9, 10, 11)
-        for j in range(12):
+        rng = range(nb) if tier != 'quick' else (0, 2, 6, 9, 10, 11, 12)
+        for j in range(nb):
             for l in rng:
                 cases.append({'kind': 'mix', 'idx': [first, j, l]})
     elif k == 'reject':
